@@ -18,6 +18,7 @@ c_OnlySD == TRUE
 c_PolyDeg == 1
 c_DiffK == {1}
 c_MaxDeg == 2
+c_EvExp == 0
 c_Invalid == FALSE
 c_MaxHist == 6
 c_RunActs == {"eval", "load", "reset", "save", "update"}
@@ -29,4 +30,5 @@ c_EmitOps == {1}
 c_EmitMod == 150
 c_EmitRes == 0
 c_EmitSmall == 0
+c_EmitFilter == "all"
 ====
